@@ -59,9 +59,9 @@ pub fn exec(a: &[&str]) -> String {
             let fits = pos + KTYPES.iter().find(|t| t.0 == a[3]).map(|t| t.1).unwrap() <= s.len();
             let km = if !fits && !cfg!(debug_assertions) { "panic".to_string() } else { std::panic::catch_unwind(std::panic::AssertUnwindSafe(|| with_named_kmer!(a[3], kmer_at, &s, pos))).unwrap_or_else(|_| "panic".to_string()) };
             format!(
-                "{}|bytes={} ascii={} str={} disp={} owned={} eq={} eqrc={} kmer={} dbg={}",
+                "{}|bytes={} ascii={} str={} disp={} owned={} eq={} eqrc={} it={} kmer={} dbg={}",
                 tr.join(";"), show_digits(&bytes), txt(&s.ascii()), txt(s.to_dna_string().as_bytes()), txt(format!("{}", s).as_bytes()),
-                show_t(&owned), eq as u8, eqrc, km, txt(format!("{:?}", s).as_bytes())
+                show_t(&owned), eq as u8, eqrc, adaptors(|| s.iter(), |b| b.to_string()), km, txt(format!("{:?}", s).as_bytes())
             )
         }
         "ham" => {
